@@ -212,6 +212,16 @@ func one(k *run.K, g geom.Geometry, domain string) {
 	judgeBoundary(k, g)
 	judgePOS(k, g)
 	judgeDim(k, g)
+	if k.Index%2 == 0 {
+		// the same judgements on the same point set carrying independent Z/M values at every control point
+		// (different at coinciding XY: closing points of closed lines and rings, shared end points)
+		gz := shared.Payload(k.Rng, g, shared.PayloadCT(k.Rng))
+		k.In("g_with_payload", shared.WKT(gz))
+		k.Count("payload_variants", 1)
+		judgeBoundary(k, gz)
+		judgePOS(k, gz)
+		judgeDim(k, gz)
+	}
 }
 
 // narrow builds a rectilinear polygon around the horizontal mid row so that
